@@ -30,14 +30,15 @@ vars == <<l, cov>>
 SemProps == {"C01", "C02", "C03", "C04", "C05", "C06", "C08", "C09", "C14", "C07"}
 CaseOK(e, s, x) ==
   CASE PROP \in SemProps ->
-         IF x.pw THEN TRUE      \* port DDR/DR written: peripheral semantics are H8Port's (C16), not judged here
+         IF x.q = "odd" /\ PROP # "C09" THEN TRUE     \* only C09 speaks about word / long operands at odd addresses
+         ELSE IF x.pw THEN TRUE      \* port DDR/DR written: peripheral semantics are H8Port's (C16), not judged here
          ELSE IF x.res = "ok" THEN e.res = "ok" /\ PostOK(e, s, x) /\ ConOK(e, x)
          ELSE IF x.res = "err" THEN e.res # "ok"
          ELSE TRUE
     [] PROP = "C15" -> e.res # "panic"
     [] PROP = "C20" -> (x.res = "ok" /\ e.res = "ok" /\ x.cyc >= 0) => e.st = x.cyc
     [] PROP = "ALL" ->
-         IF x.pw THEN e.res # "panic"
+         IF x.pw \/ x.q = "odd" THEN e.res # "panic"
          ELSE IF x.res = "ok" THEN e.res = "ok" /\ PostOK(e, s, x) /\ ConOK(e, x) /\ (x.cyc >= 0 => e.st = x.cyc)
          ELSE IF x.res = "err" THEN e.res = "err"
          ELSE e.res # "panic"
